@@ -210,6 +210,7 @@ static void *thread_main(void *arg)
     return NULL;
 }
 
+static long s_cases_done = 0;
 static void run_case(Case &c)
 {
     Rng &r = c.rng;
@@ -228,6 +229,33 @@ static void run_case(Case &c)
         cover(vfmt("replay|emu%d|chips%d|type%d|rate%ld|%s", h.emu, h.chips, a.chiptype_obtained, h.rate, nonsilent ? "sound" : "quiet"));
         count("pcm_frames_compared", (long long)(a.pcm.size() / 2 + a.pcmf.size() / 2)); count("register_writes_compared", (long long)a.regs.size());
         c.sample(vfmt("{\"stage\":\"replay\",\"emulator\":%d,\"chips\":%d,\"rate\":%ld,\"ops\":%zu,\"pcm_frames\":%zu,\"register_writes\":%zu}", h.emu, h.chips, h.rate, h.ops.size(), a.pcm.size() / 2, a.regs.size()));
+        return;
+    }
+    if(st == "fresh" || st == "fresh-child")
+    {   // the same history in this long-lived worker (after many other instances of every core and family) and as the very
+        // first thing a newly exec'ed process does: process-wide state frozen by whoever came first shows as a difference
+        static const int emus[] = {0, 1, 2, 3, 4, 5, 6, 8};
+        Hist h = gen_hist(r, emus[(c.k * 7 + c.k / 16) % 8]);
+        Out a = run_alone(h, can_fill ? 0 : -1);
+        uint64_t hsh = fnv1a(a.pcm.data(), a.pcm.size() * sizeof(int16_t));
+        hsh = fnv1a(a.pcmf.data(), a.pcmf.size() * sizeof(float), hsh);
+        for(size_t i = 0; i < a.regs.size(); i++) { uint32_t v[4] = {(uint32_t)a.regs[i].chip, (uint32_t)a.regs[i].port, (uint32_t)a.regs[i].reg, (uint32_t)a.regs[i].val}; hsh = fnv1a(v, sizeof(v), hsh); }
+        if(st == "fresh-child") { printf("HASH %016llx %zu %zu\n", (unsigned long long)hsh, a.pcm.size(), a.regs.size()); fflush(stdout); return; }
+        char exe[512]; ssize_t n = readlink("/proc/self/exe", exe, sizeof(exe) - 1);
+        if(n <= 0) { c.inconclusive = true; return; }
+        exe[n] = 0;
+        std::string cmd = vfmt("'%s' --seed %llu --stream %llu --stage fresh-child --variant %s --tier %s --only %ld --budget 120 2>/dev/null", exe, (unsigned long long)g_w.seed, (unsigned long long)c.stream, g_w.variant.c_str(), g_w.tier.c_str(), c.k);
+        FILE *pf = popen(cmd.c_str(), "r");
+        unsigned long long child = 0; size_t cp = 0, cr = 0; bool got = false;
+        if(pf) { char line[256]; while(fgets(line, sizeof(line), pf)) if(sscanf(line, "HASH %llx %zu %zu", &child, &cp, &cr) == 3) got = true; pclose(pf); }
+        if(!got || a.bad_returns) { c.inconclusive = true; count("inconclusive_fresh_process_failed"); return; }
+        if(child != (unsigned long long)hsh)
+            c.violation(vfmt("oracle:C14:output-depends-on-process-history:emu-%d", h.emu), vfmt("history %ld rendered in this worker (after %ld earlier cases) differs from the same history as the first action of a new process (hash %016llx vs %016llx, %zu/%zu PCM samples, %zu/%zu register writes); emulator %d (%s), chip type %d, %d chips, rate %ld", c.k, s_cases_done, (unsigned long long)hsh, child, a.pcm.size(), cp, a.regs.size(), cr, h.emu, a.emu_name.c_str(), a.chiptype_obtained, h.chips, h.rate));
+        c.nontrivial = s_cases_done > 0 && a.pcm.size() + a.pcmf.size() > 200;
+        cover(vfmt("fresh|emu%d|type%d|aged%d", h.emu, a.chiptype_obtained, s_cases_done > 0 ? 1 : 0));
+        s_cases_done++;
+        count("histories_compared_with_a_fresh_process", 1);
+        c.sample(vfmt("{\"stage\":\"fresh\",\"emulator\":%d,\"chip_type\":%d,\"earlier_cases_in_this_process\":%ld,\"hash\":\"%016llx\"}", h.emu, a.chiptype_obtained, s_cases_done - 1, (unsigned long long)hsh));
         return;
     }
     if(st == "interfere")
